@@ -238,7 +238,12 @@ package tchannel
 
 // (the call-req path counts for C08 and C09 too: ttl clamp, remapped ids,
 // hand-over, pending-count accounting)
+// (C08) a call the relay gives up (destination queue full, ...) is failed under
+// the id its CALLER used -- the frame's id has been rewritten to the destination
+// side's id by then, and that number means another call on the source connection.
 //@ func (r *Relayer) handleCallReq(f *lazyCallReq) (shouldRelease bool, err error)
+//@   label given-up-call-is-failed-under-the-callers-id
+//@   atcall failRelayItem arg2 == old(f.Header.ID)
 //@   property C08 C09
 
 // ---------------------------------------------------------------------------
